@@ -36,6 +36,21 @@ class Instance:
 # --------------------------------------------------------------------------- known findings
 
 
+def _api_replay(inst, values, rep):
+    """the public-API replay; if the concrete replay of the cloned code ended in an exception and the public API raises
+    the same exception type for the same input, that *is* the reproduction (anything else propagates: harness error)"""
+    from . import core
+
+    try:
+        return inst.api_replay(values)
+    except core._Abort:
+        return dict(ok=True, detail="precondition of the API replay not met")
+    except Exception as e:
+        if rep.get("status") == "exception" and str(rep.get("error", "")).startswith(type(e).__name__):
+            return dict(ok=False, detail=f"the public API raises {e!r}")
+        raise
+
+
 def load_known(prop):
     """-> list of dict(site=..., text=...) for 'known:' lines of this property"""
     out = []
@@ -82,10 +97,7 @@ def run_instance(modname, tier, idx, seed, nwit):
         if rep["status"] not in ("violated", "exception"):
             return "not-reproduced"
         if inst.api_replay is not None:
-            try:
-                api = inst.api_replay(f["values"])
-            except core._Abort:
-                api = dict(ok=True, detail="precondition of the API replay not met")
+            api = _api_replay(inst, f["values"], rep)
             f["api_replay"] = api
             if api.get("ok"):
                 return "not-reproduced"
@@ -314,7 +326,7 @@ def replay_file(path):
     print("observations:", rep.get("observations"))
     api = None
     if inst.api_replay is not None:
-        api = inst.api_replay(data["values"])
+        api = _api_replay(inst, data["values"], rep)
         print("public-API replay:", api)
     bad = rep["status"] in ("violated", "exception") and (api is None or not api.get("ok"))
     if bad:
